@@ -492,6 +492,24 @@ def normals(n, seed, m=4):
     return out
 
 
+# a spacelike normal is a homogeneous vector: lambda v (lambda != 0) is spacelike whenever v is, and names the same hyperplane
+NORMAL_SCALES = [3e-5, 1e-6, 1e4, -1.0, -3e-5, -1e-6, -1e4]
+
+
+def scaled_normals(n, seed, m=4):
+    """[scale, scaled normal] for every generic (non-F11) normal of `normals` x NORMAL_SCALES; the F11 class of a normal is decided on
+    the scaled vector itself (the SVD kernel basis may depend on the sign)."""
+    out = []
+    for v in normals(n, seed, m):
+        if nullness(v) < 1e-5:
+            continue
+        for s in NORMAL_SCALES:
+            w = [float(s) * float(x) for x in v]
+            if nullness(w) >= 1e-5:
+                out.append([s, w])
+    return out
+
+
 def triangle_triples(labels):
     out = []
     for t in itertools.combinations_with_replacement(labels, 3):
@@ -595,6 +613,16 @@ def full_alphabet(n, seed, quick):
         G.append(["reflection", v])
         for fo in (True, False):
             G.append(["spacelike_to", v, fo])
+    # the same normals at small / large / negative homogeneous scale
+    SN = scaled_normals(n, seed)
+    for i, (s, w) in enumerate(SN):
+        G.append(["reflection", w])
+        G.append(["spacelike_to", w, i % 2 == 0])
+    for i in range(0, len(SN) - 2, 3):         # composites mixing scales
+        trio = [[SN[i][1]], [SN[i + 1][1]], [N[i % len(N)]]]
+        if nullness(trio[2][0]) >= 1e-5:
+            for j in range(3):
+                G.append(["reflection", trio, [j]])
     # composite normals in the library's own (..., 1, n+1) layout
     gen = [v for v in N if nullness(v) >= 1e-5]
     comp = [[gen[0]], [gen[1]], [gen[2]]]
@@ -781,6 +809,7 @@ def composite_cases(n, seed, quick):
     TP = tangent_pairs(n, seed, 6)
     TV = [[TP[i][0], TP[i][1], TP[(i + 3) % len(TP)][0], TP[(i + 3) % len(TP)][1]] for i in range(len(TP))]
     N = [v for v in normals(n, seed, 6) if nullness(v) >= 1e-5]
+    SN = [w for _, w in scaled_normals(n, seed, 6)]
     S = sl2_integer_matrices()
     out = []
     for si, shape in enumerate(COMPOSITE_SHAPES):
@@ -794,6 +823,9 @@ def composite_cases(n, seed, quick):
         for fo in (None, True, False):
             out.append(dict(base, ctor="tv_isometry_to", units=_cycle(TV, cnt, 3 * si + 2), fo=fo))
         out.append(dict(base, ctor="reflection", units=_cycle(N, cnt, 2 * si + 1)))
+        # the same at mixed homogeneous scales (every member of the composite at another scale)
+        out.append(dict(base, ctor="reflection", units=_cycle(SN, cnt, 5 * si + 1)))
+        out.append(dict(base, ctor="spacelike_to", units=_cycle(SN, cnt, 5 * si + 3), fo=si % 2 == 0))
         if n == 2:
             for vi, variant in enumerate(("sl2_iso", "from_sl2", "list")):
                 out.append(dict(base, ctor="sl2", units=_cycle(S, cnt, 7 * si + 11 * vi), variant=variant))
@@ -939,7 +971,8 @@ def run(ctx):
                 "invariants are M J M^T = J = M^T J M, inv() = J M^T J, distances of all ordered pairs of distinct "
                 "lattice points, class of timelike/lightlike/spacelike test vectors. Non-trivial: a word of length >= 1" % depth)
     ctx.assume("points/vectors have float coordinates; tangent vectors are Minkowski-orthogonal to their base point")
-    ctx.assume("reflection normals and spacelike_to arguments are spacelike with relative margin >= 0.1; composite normals use the library's (..., 1, n+1) layout")
+    ctx.assume("reflection normals and spacelike_to arguments: lambda * v, v spacelike with relative margin >= 0.1, lambda = 1 or (generic normals) "
+               "lambda in %s - being spacelike does not depend on the homogeneous scale;" % NORMAL_SCALES + " composite normals use the library's (..., 1, n+1) layout")
     ctx.assume("2x2 matrices have determinant +1 or -1 (integer entries in [-2, 2])")
     ctx.assume("Coxeter matrices are those whose cosine form has signature (d,1) with |eigenvalue| > 1e-3 according to the oracle")
     ctx.assume("hyperbolic_rep() is a function of the group: descriptors ['coxeter', group, generator, earlier request] take it from a group "
